@@ -25,7 +25,7 @@ CHECKS = {
  'C04': dict(
   technique="bounded stand-in (no deductive contract on the SMSgreedy emitters yet): the real greedy_from_json on ~700 (thorough: ~4 500) specifications produced by the real front end, each successful result executed by an independent abstract stack machine",
   category='other', ref='DESIGN.md section 4 (C04)',
-  text="Bounded: whenever the greedy search reports error = 0 on a specification of the corpora (hand-written, memory/storage, rule shapes, random blocks with deep stacks and many stores; 3 splitting policies in thorough), the returned ids never underflow, use only DUP/SWAP depths 1..16, give every instruction exactly the operands the specification names, execute every store once, respect every ordering constraint and end in the specified stack; the specification passed in is not altered.",
+  text="Bounded: whenever the greedy search reports error = 0 on a specification of the corpora (hand-written, memory/storage, rule shapes, random blocks with deep stacks and many stores, several stores of one kind of which only some are ordered; 3 splitting policies in thorough), the returned ids never underflow, use only DUP/SWAP depths 1..16, give every instruction exactly the operands the specification names, execute every store once, respect every ordering constraint and end in the specified stack; the specification passed in is not altered.",
   note="Tier B only. Trusted: specs/stackexec.py (abstract stack machine). The heuristic emitters are not under contract; their failures are contained (C10)."),
  'C05': dict(
   technique="recursion-on-contract proof of compare_variables (one frame with arbitrary symbolic arguments, recursive calls replaced by the function's own contract, uninterpreted denotation functions; z3), gate contract on compare_asm_block_asm_format, plus the whole checker run on semantic mutants judged by a reference executor (bounded)",
@@ -50,12 +50,12 @@ CHECKS = {
  'C09': dict(
   technique="contracts on ids2asm.id_to_asm_bytecode / asm_from_ids (item shape for every instruction kind, canonical hex for all words; VCs from the real AST, z3), the frame clause of the optimize_asm_contract gate, the loop-contract proof of rebuild_optimized_asm_block (see C14) and its bounded shapes, plus a bounded run of the whole tool on synthetic documents checked by an independent reader",
   category='other', ref='DESIGN.md section 4 (C09)',
-  text="Proved: every item rebuilt from an instruction id has the instruction's name, numeric pushes carry the canonical lower-case hex of the word (all 2^256 values), pseudo pushes carry the specification's operand, unbound ids become basic stack operations and NOP is dropped; the optimized contract is a deep copy with only the code lists replaced. Bounded: on 7 synthetic documents x 3-7 option sets the skeleton (tags, JUMPDEST, jumps, terminals, split instructions with all fields), version, auxdata, data sections and source lists are unchanged, emitted items are well formed, pseudo-push operands occur in the input segment, and the output re-reads to itself.",
+  text="Proved: every item rebuilt from an instruction id has the instruction's name, numeric pushes carry the canonical lower-case hex of the word (all 2^256 values), pseudo pushes carry the specification's operand, unbound ids become basic stack operations and NOP is dropped; the optimized contract is a deep copy with only the code lists replaced, also in a log replay, where every code section keeps exactly its own blocks; the folding kernels return words (contracts re-run from C03), so an emitted PUSH holds a word. Bounded: on 8 synthetic documents (one of constant operations that leave the word range) x 3-7 option sets the skeleton (tags, JUMPDEST, jumps, terminals, split instructions with all fields), version, auxdata, data sections and source lists are unchanged, emitted items are well formed, pseudo-push operands occur in the input segment, and the output re-reads to itself.",
   note=TRUST + "Whole-document preservation is a bounded stand-in (synthetic documents, greedy back end)."),
  'C12': dict(
   technique="frame obligations discharged by a flow-sensitive effect analysis of the real ASTs (may-read-before-write / must-write sets with call summaries, fixpoint over 400+ functions): every module global that an entry point may read before writing it and that is written between blocks belongs to a reviewed class whose side condition is re-checked mechanically; plus bounded native history replays against pristine processes",
   category='other', ref='DESIGN.md section 4 (C12)',
-  text="For the per-block entry points (evm2rbr_compiler, get_subblocks, optimize_asm_block_asm_format, compare_asm_block_asm_format, optimize_asm_block_from_log, greedy_from_json, generate_statistics_info): the result depends only on the arguments, on constants and on option mirrors; statistics accumulators are only self-updated; no mutable default argument is mutated. A new global that is read before being re-initialised, or a reviewed one whose side condition breaks, fails the obligation. Bounded: blocks processed after histories of other blocks give the same specification and code as in a pristine process.",
+  text="For the per-block entry points (evm2rbr_compiler, get_subblocks, optimize_asm_block_asm_format, compare_asm_block_asm_format, optimize_asm_block_from_log, greedy_from_json, generate_statistics_info): the result depends only on the arguments, on constants and on option mirrors; statistics accumulators are only self-updated; no mutable default argument is mutated. A new global that is read before being re-initialised, or a reviewed one whose side condition breaks, fails the obligation. Bounded: blocks processed after histories of other blocks give the same specification and code as in a pristine process; every block the parser returns equals the block its own items give alone (all item sequences up to length 4/5 over 7 items incl. PUSHLIB, tag, JUMP).",
   note="Trusted: the effect analysis (frames/effects.py) -- sufficient, over-approximating; limits: dynamic attribute access, exec/eval, aliasing of a global container through a local name. Assumption: one option set per process. The reviewed table is in contracts/c12.py."),
  'C13': dict(
   technique="purity obligations discharged by a scan of the real ASTs of everything reachable from the per-block entry points (run-dependent sources: clock, hash(), id(), uuid, pid, directory listings, resource usage; order-sensitive consumption of set-typed values), each site reviewed with a reason; plus bounded replays under different PYTHONHASHSEED values in separate processes",
@@ -85,7 +85,7 @@ CHECKS = {
  'C17': dict(
   technique="contract-based deductive verification with the PUSH0 flag as a ghost parameter of every contract (is_push0, build_asm_bytecode, generate_push_instruction, id_to_asm_bytecode, item printers/pricing), plus trace contracts on execute_gasol and the contract filter with callee contracts as stubs; z3",
   category='proof', ref='DESIGN.md section 4 (C17)',
-  text="For both flag values and all operands: an item is parsed, synthesized, priced or printed as PUSH0 only under the flag (or if the input item already was PUSH0); the same pricing function serves input and output; the flag is set before any entry point runs; unselected contracts are passed through as the same objects.",
+  text="For both flag values and all operands: an item is parsed, synthesized, priced or printed as PUSH0 only under the flag (or if the input item already was PUSH0); the same pricing function serves input and output; every plain-text spelling of a zero push is read into the same item under one flag value and priced alike (finite, complete); the flag is set before any entry point runs; unselected contracts are passed through as the same objects.",
   note=TRUST + "Callee contracts used as stubs: parse_asm, optimize_asm_contract, file output. The greedy renderer's display text is not under contract."),
  'C18': dict(
   technique="contract-style obligations on the real constructor/simplifier/equality/printer code interpreted from its AST, with literal values and the valuation of every atom symbolic (z3 decides each shape for all valuations); argument lists enumerated by shape up to a stated bound",
